@@ -431,40 +431,58 @@ Record compiled := mk_comp {
   o_fuel_ok : bool
 }.
 
-Definition compile (R : registry) : result compiled :=
-  do L <- augment_classes R;
-  do ms <- augment_methods R (l_keys L) (r_methods R);
-  let st := assign_slots L ms in
+(* multi-method tables first: returns gv_dispatch_table of each method (as an offset; 0 for uni-methods) and the words *)
+Fixpoint place_tables (mi : nat) (off : nat) (mts : list (cmeth * ctable)) : list nat * list word :=
+  match mts with
+  | [] => ([], [])
+  | (m, t) :: rest =>
+      if length (cm_vp m) =? 1 then
+        let '(offs, img) := place_tables (S mi) off rest in (0 :: offs, img)
+      else
+        let ws := map (word_of_cell mi) (t_cells t) in
+        let '(offs, img) := place_tables (S mi) (off + length ws) rest in (off :: offs, ws ++ img)
+  end.
+
+(* what install_gv stores for one v-table entry *)
+Definition entry_word (ms : list cmeth) (tables : list ctable) (offs : list nat) (e : nat * nat * nat) : word :=
+  let '(mi, vpi, g) := e in
+  let m := nth mi ms (mk_cmeth [] [] [] []) in
+  let t := nth mi tables (mk_ct [] [] [] (mk_rep 0 0 0 0 0 0) []) in
+  if length (cm_vp m) =? 1 then word_of_cell mi (nth g (t_cells t) CNi)
+  else if vpi =? 0 then WRow (nth mi offs 0 + g)
+  else WIdx g.
+
+(* then one v-table per class, in class order: static v-table pointers (biased by first_slot) and the words *)
+Fixpoint place_vtbls (off : nat) (firsts : list nat) (vts : list (list word)) : list Z * list word :=
+  match firsts, vts with
+  | fs :: firsts', ws :: vts' =>
+      let '(vps, img) := place_vtbls (off + length ws) firsts' vts' in
+      ((Z.of_nat off - Z.of_nat fs)%Z :: vps, ws ++ img)
+  | _, _ => ([], [])
+  end.
+
+Definition total_cells (tables : list ctable) (vt : list (list (nat * nat * nat))) : nat :=
+  fold_left (fun s t => s + length (t_cells t)) tables 0 + fold_left (fun s l => s + length l) vt 0.
+
+Definition slots_strides_of (st : sstate) (mi : nat) (m : cmeth) (t : ctable) : list nat :=
+  let sl := nth mi (s_slots st) [] in
+  if length (cm_vp m) =? 1 then firstn 1 sl else sl ++ t_strides t.
+
+Definition install (L : lattice) (ms : list cmeth) (st : sstate) : compiled :=
   let tables := map (build_method L) ms in
   let vt := write_vtbls L ms st in
   let report := fold_left accumulate (map t_report tables) (mk_rep 0 0 0 0 0 0) in
-  (* multi-method tables first *)
-  let '(offs, img1) :=
-    fold_left (fun '(offs, img) '(mi, (m, t)) =>
-                 if length (cm_vp m) =? 1 then (offs ++ [0], img)
-                 else (offs ++ [length img], img ++ map (word_of_cell mi) (t_cells t)))
-              (combine (seq 0 (length ms)) (combine ms tables)) ([], []) in
-  (* then one v-table per class *)
-  let '(vptrs, img2) :=
-    fold_left (fun '(vps, img) c =>
-                 let fs := nth c (s_first st) 0 in
-                 let ws := map (fun '(mi, vpi, g) =>
-                                  let m := nth mi ms (mk_cmeth [] [] [] []) in
-                                  let t := nth mi tables (mk_ct [] [] [] (mk_rep 0 0 0 0 0 0) []) in
-                                  if length (cm_vp m) =? 1 then word_of_cell mi (nth g (t_cells t) CNi)
-                                  else if vpi =? 0 then WRow (nth mi offs 0 + g)
-                                  else WIdx g)
-                               (nth c vt []) in
-                 (vps ++ [(Z.of_nat (length img) - Z.of_nat fs)%Z], img ++ ws))
-              (seq 0 (length (l_keys L))) ([], img1) in
-  let total := fold_left (fun s t => s + length (t_cells t)) tables 0
-               + fold_left (fun s l => s + length l) vt 0 in
-  let img3 := img2 ++ repeat WJunk (total - length img2) in
-  let ss := map (fun '(mi, (m, t)) =>
-                   let sl := nth mi (s_slots st) [] in
-                   if length (cm_vp m) =? 1 then firstn 1 sl else sl ++ t_strides t)
-                (combine (seq 0 (length ms)) (combine ms tables)) in
-  Ok (mk_comp L ms (s_slots st) (s_first st) vt tables report offs img3 vptrs ss (s_fuel_ok st)).
+  let '(offs, img1) := place_tables 0 0 (combine ms tables) in
+  let '(vptrs, img2) := place_vtbls (length img1) (s_first st) (map (map (entry_word ms tables offs)) vt) in
+  let img := img1 ++ img2 in
+  let img3 := img ++ repeat WJunk (total_cells tables vt - length img) in
+  let ss := map (fun '(mi, (m, t)) => slots_strides_of st mi m t) (combine (seq 0 (length ms)) (combine ms tables)) in
+  mk_comp L ms (s_slots st) (s_first st) vt tables report offs img3 vptrs ss (s_fuel_ok st).
+
+Definition compile (R : registry) : result compiled :=
+  do L <- augment_classes R;
+  do ms <- augment_methods R (l_keys L) (r_methods R);
+  Ok (install L ms (assign_slots L ms)).
 
 (* ------------------------------------------------------------------ the call side: method::resolve *)
 
